@@ -180,3 +180,60 @@ Section Hier.
     rewrite <- Ep in Hgr. eapply Hsub; eauto.
   Qed.
 End Hier.
+
+(* ---- C01 for call_next: whatever lookup_next returns is a registered, type-level applicable method ---- *)
+Lemma pull_subset : forall n scs proc x grp, In grp (pull n scs proc) -> In x grp -> In x scs.
+Proof.
+  induction n as [|n IH]; intros scs proc x grp Hg Hx; [destruct Hg|].
+  simpl in Hg. destruct (filter _ scs) as [|c1 r1] eqn:Ef; [destruct Hg|].
+  assert (Hsubf : forall y, In y (c1 :: r1) -> In y scs) by (intros y Hy; rewrite <- Ef in Hy; apply filter_In in Hy; tauto).
+  destruct Hg as [<-|Hg].
+  - destruct Hx as [<-|Hx]; [apply Hsubf; now left|]. apply filter_In in Hx. apply Hsubf. right. tauto.
+  - apply Hsubf. right. eapply IH; eauto.
+Qed.
+
+Lemma rank_outcome_run g i : rank_outcome g = ORun i -> exists c, g = [c] /\ cid c = i.
+Proof. destruct g as [|c [|c2 t]]; simpl; try discriminate. intros H; injection H as <-. eauto. Qed.
+
+Lemma chain_next_run ranks caller i :
+  chain_next ranks caller = Some (ORun i) -> exists g c, In g ranks /\ In c g /\ cid c = i.
+Proof.
+  induction ranks as [|g rest IH]; simpl; [discriminate|].
+  destruct g as [|c [|c2 t]]; try discriminate.
+  destruct (Nat.eqb (m_id (c_m c)) caller).
+  - destruct rest as [|g2 r2]; [discriminate|]. intros H; injection H as H.
+    destruct (rank_outcome_run _ _ H) as (c' & -> & Hc). exists [c'], c'. split; [right; now left|]. split; [now left|exact Hc].
+  - intros H. destruct (IH H) as (g' & c' & Hg & Hc & Hi). exists g', c'. split; [now right|]. split; assumption.
+Qed.
+
+Section NextSound.
+  Variable sub : nat -> nat -> bool.
+  Variable hasm : nat -> nat -> bool.
+  Variable chk : nat -> nat -> bool.
+  Variable sub_fresh : nat -> bool.
+  Notation candidates := (candidates sub hasm chk sub_fresh).
+  Notation lookup_next := (lookup_next sub hasm chk sub_fresh).
+
+  Theorem next_run_applicable ms k caller i :
+    lookup_next ms caller k = ORun i ->
+    exists m, In m ms /\ m_id m = i /\ applicable_ty sub hasm chk sub_fresh m k = true.
+  Proof.
+    intros H. unfold Resolve.lookup_next, Resolve.mro in H.
+    destruct (candidates ms k) as [cs|e] eqn:Hc; cbn [rbind] in H; [|destruct e; discriminate].
+    set (ranks := pull (S (length (sort_desc cs))) (sort_desc cs) []) in *.
+    assert (Hcand : forall g c, In g ranks -> In c g -> exists m, In m ms /\ m_id m = cid c /\ applicable_ty sub hasm chk sub_fresh m k = true).
+    { intros g c Hg Hcg. assert (Hin : In c cs) by (apply sort_desc_In; eapply pull_subset; eauto).
+      pose proof (proj1 (cand_In _ _ _ _ _ _ _ _ Hc) Hin) as (lv & _ & Hm & _).
+      exists (c_m c). repeat split; auto. apply (cand_applicable _ _ _ _ _ _ _ _ Hc Hm). eauto. }
+    destruct ranks as [|g rest] eqn:Er; [discriminate|].
+    assert (Hchain : forall o, chain_next (g :: rest) caller = Some o -> o = ORun i ->
+              exists m, In m ms /\ m_id m = i /\ applicable_ty sub hasm chk sub_fresh m k = true).
+    { intros o Ech ->. destruct (chain_next_run _ _ _ Ech) as (g' & c' & Hg' & Hc' & <-). eapply Hcand; eauto. }
+    destruct (rank_outcome g) eqn:Ero; try discriminate H;
+      (destruct (negb _);
+       [ try discriminate H
+       | destruct (chain_next (g :: rest) caller) as [o|] eqn:Ech; [|discriminate H]; eapply Hchain; eauto ]).
+    injection H as <-. destruct (rank_outcome_run _ _ Ero) as (c & -> & Hci). rewrite <- Hci.
+    apply (Hcand [c] c); now left.
+  Qed.
+End NextSound.
